@@ -470,15 +470,23 @@ def regconst_lines(chk, infos, quick, byname):
                     out.append(v)
             return out
 
-        def hi(v):      # S forms: arbitrary upper half of the register
+        def hi(v, mode=None):      # S forms: upper half of the register (0 / all ones / sign extension / arbitrary)
             if w == 64:
                 return v
+            if mode == 'z':
+                return v
+            if mode == 's':
+                return v | ((0xffffffff if v >> 31 else 0) << 32)
             return v | (rng.choice([0, 0xffffffff, (0xffffffff if v >> 31 else 0), rng.getrandbits(32)]) << 32)
         rest = [k for k in range(w) if k not in top]
         todo = []
         for k in top:
             for c in consts(k)[:2]:
                 todo += [(c, v, k) for v in values(k)]
+                if w == 32:    # the 64-bit constant itself is / is not a power of two: zero and sign extended, always
+                    todo += [(c, v, 'z') for v in values(k)]
+                    if c >> 31:
+                        todo += [(c, v, 's') for v in values(k)]
             for c in consts(k)[2:]:
                 todo += [(c, v, k) for v in (values(k) if not quick else rng.sample(values(k), 3))]
         for k in (rest if not quick else rng.sample(rest, 6 if w == 64 else 4)):
@@ -489,7 +497,7 @@ def regconst_lines(chk, infos, quick, byname):
                 continue
             n += 1
             swap = 'MUL' in name and rng.random() < 0.25
-            ops = ['r:%x' % hi(v), 'k:%x' % hi(c)]
+            ops = ['r:%x' % hi(v), 'k:%x' % hi(c, k if isinstance(k, str) else None)]
             vals, shapes = [v, c], ['r', 'k']
             if swap:
                 ops.reverse(); vals.reverse(); shapes.reverse()
